@@ -1167,7 +1167,12 @@ fn built_query(rng: &mut Rng, store: &'static AnnotationStore, depth: usize, all
     for _ in 0..rng.range(0, 3) {
         let (c, e) = built_constraint(rng, store, 0, allow_hostile);
         exact &= e;
-        q = q.with_constraint(c);
+        // either builder: the owning one or the one that works through a mutable reference
+        if rng.chance(1, 3) {
+            q.constrain(c);
+        } else {
+            q = q.with_constraint(c);
+        }
     }
     if depth < 2 && rng.chance(1, 3) {
         for _ in 0..rng.range(1, 2) {
